@@ -114,7 +114,7 @@ func init() {
 					via := vpS(in, "via")
 					w.idp.mutateClaims = nil
 					if vpS(in, "size") == "split" {
-						pad := vpRandPad(3000)
+						pad := vpRandPad(1800)
 						w.idp.mutateClaims = func(kind string, cl map[string]interface{}) { cl["pad"] = pad }
 					}
 					mk := func(target string, jar *vpJar) vpReq {
